@@ -216,13 +216,13 @@ CLAIMED["C07"] = dict(
     technique="TLA+ specs Transcript (byte framing of the Fiat-Shamir transcript; injectivity of the V1 framing checked by TLC over pairs of same-shape operation sequences) and Sigma (every protocol as a matrix of group elements over Z_q: completeness, response / statement binding, special soundness for all witnesses, randomness and challenges); byte streams and (protocol, witness class, perturbation) rows replayed on the real transcript types and sigma protocols over BLS12-381",
     text=("Transcript.tla specifies what is hashed: u64be length-prefixed labels, serialised items, counted item lists, the domain as first label; TLC shows the V1 framing injective on all pairs of same-shape sequences of the "
           "bounded alphabet (the legacy oracle's documented ambiguity is kept as an explicit witness). Every sequence is replayed on TranscriptProtocolV1 and RandomOracle and the challenge compared with SHA3-256 of the "
-          "specified bytes. Sigma.tla writes dlog, aggregate_dlog, dlog_eq, com_eq, com_eq_different_groups, com_enc_eq, vcom_eq, com_lin, com_mult and the AND / replicated compositions as linear maps and TLC checks "
+          "specified bytes. Sigma.tla writes dlog, aggregate_dlog, dlog_eq, com_eq, com_eq_different_groups, com_eq_sig (every slot of the PS key in use), com_enc_eq, vcom_eq, com_lin, com_mult, enc_trans and the AND / replicated compositions as linear maps and TLC checks "
           "completeness, that changing any response component or (for non-zero challenge) any image changes the extracted commitment, and special soundness, for all values over Z_5 / Z_3. Its rows (one witness component at "
           "0, 1 or r-1, all random, all zero; perturbation of nothing, the context, the challenge, each public input, each response scalar) are replayed with prove / verify on G1 (and G2 where two groups are involved) "
-          "under both transcript types: unperturbed proofs must verify, every perturbed one must not. For protocols whose statement carries an index set or a list of sub-statements (vcom_eq, the replicated "
-          "composition) a forged transcript is replayed as well: made for the statement without one row whose image is false, hashed as the full statement (invariant EveryRowChecked; found and led to the fix of Z1 in vcom_eq)."),
-    note=("com_eq_sig at 'number of commitments = key length', crafted enc_trans responses that move elements between the two chunk vectors and the statement binding of com_lin are not reached (seeded changes C07-5, C07-7, C07-8). "
-          "dlog_eq and com_lin are model-checked only (not constructible from outside the crate); com_eq_sig, ps_sig_known, com_ineq and enc_trans are exercised indirectly by the credential, statement and encrypted-transfer checks. "
+          "under both transcript types: unperturbed proofs must verify, every perturbed one must not. For protocols whose statement carries an index set or lists of sub-statements (vcom_eq, the replicated "
+          "composition, the two chunk lists of enc_trans - also with response counts shifted between the lists) a forged transcript is replayed as well: made for the statement without one row whose image is false, hashed as the full statement (invariant EveryRowChecked; found and led to the fix of Z1 in vcom_eq)."),
+    note=("The statement binding of com_lin is not reached (seeded change C07-8). "
+          "dlog_eq and com_lin are model-checked only (not constructible from outside the crate); ps_sig_known and com_ineq are exercised indirectly by the credential and statement checks. "
           "Soundness and zero-knowledge proper are outside TLC."),
     ref="4 C07")
 
